@@ -92,11 +92,11 @@ struct Thr {
     broken: bool,
 }
 
-const Y_START: u8 = 0;
 const Y_STEP: u8 = 1;
 const Y_TOKENIZE: u8 = 2;
 const Y_LOOKUP: u8 = 3;
 const Y_END: u8 = 4;
+const Y_POINT: u8 = 5;
 const THR_WATCHDOG: Duration = Duration::from_secs(10);
 
 struct H {
@@ -319,7 +319,8 @@ impl H {
             t.turn = None;
             return;
         }
-        let c = t.schedule.get(t.pos).copied();
+        // the schedule is cycled (an empty one means "lowest runnable")
+        let c = if t.schedule.is_empty() { None } else { Some(t.schedule[t.pos % t.schedule.len()]) };
         t.pos += 1;
         let next = match (c, me) {
             (Some(0), Some(m)) if !t.done[m] => m,
@@ -373,8 +374,7 @@ impl H {
         let mut st = self.st.lock().unwrap();
         st.thr.ids.insert(std::thread::current().id(), me);
         st.thr.parked[me] = true;
-        st.thr.trace.push(me as u8);
-        st.thr.trace.push(Y_START);
+        // (registration order is the operating system's business and is not part of the trace)
         self.cv.notify_all();
         let mut st = self.thr_wait(st, me);
         st.thr.parked[me] = false;
@@ -468,6 +468,15 @@ impl Handler for H {
         }
         if matches!(p.name, "rebuild.asset_start" | "rebuild.before_add" | "rebuild.after_add") {
             self.producer_gate(p);
+        }
+        {
+            // a caller thread of a `Threads` operation reached a hook point (code that builds or
+            // opens something lazily, inside a lookup): one more place where another caller may run
+            let st = self.st.lock().unwrap();
+            if st.thr.active && st.thr.ids.contains_key(&std::thread::current().id()) {
+                drop(st);
+                self.thr_yield(Y_POINT);
+            }
         }
         if p.name == "rebuild.before_commit" {
             // feeding is over: whoever is still parked (there should be nobody) goes
